@@ -282,4 +282,124 @@ Qed.
 
 End CellG.
 
+Hypothesis Hoffs : len offs = ncols + 1.
+Hypothesis Hncols : 0 < ncols.
+Hypothesis Hmaxrow : 0 < maxrow.
+
+Lemma reaches_index a b : reaches a b -> s_index a < s_index b.
+Proof.
+  intros (n & sp & R & H). pose proof (runn_index _ _ _ _ _ _ R). pose proof (step_index _ _ _ _ _ H). lia.
+Qed.
+
+(* ---- the staging buffers, with budgets that need not hold the whole column ------------------ *)
+Section DataG.
+Variables (V : Z) (rows : list (list cell)).
+Let nrows := len rows.
+Hypothesis Hoffs0 : nthZ offs 0 = 0.
+Hypothesis Hb1 : forall c, 0 <= c < ncols -> nthZ offs c + 1 <= nthZ offs (c + 1).
+Hypothesis HV : nthZ offs ncols <= V.
+Hypothesis Hrect : Forall (fun rw : list cell => len rw = ncols) rows.
+
+Definition bud (c:Z) : Z := nthZ offs (c + 1) - nthZ offs c.
+
+Lemma offs_mono1_nat n : forall c, 0 <= c -> c + Z.of_nat n <= ncols -> nthZ offs c <= nthZ offs (c + Z.of_nat n).
+Proof.
+  induction n as [|n IH]; intros c Hc H.
+  - rewrite Z.add_0_r. lia.
+  - specialize (IH c Hc ltac:(lia)). pose proof (Hb1 (c + Z.of_nat n) ltac:(lia)) as Hs.
+    replace (c + Z.of_nat (S n)) with (c + Z.of_nat n + 1) by lia. lia.
+Qed.
+
+Lemma offs_mono1 c c' : 0 <= c -> c <= c' -> c' <= ncols -> nthZ offs c <= nthZ offs c'.
+Proof. intros H1 H2 H3. replace c' with (c + Z.of_nat (Z.to_nat (c' - c))) by lia. apply offs_mono1_nat; lia. Qed.
+
+Lemma offs_nonneg1 c : 0 <= c <= ncols -> 0 <= nthZ offs c.
+Proof. intros H. rewrite <- Hoffs0. apply offs_mono1; lia. Qed.
+
+Definition GoodL (f:Z -> Z) (inds:arr2) (vals:list Z) : Prop :=
+  shape ncols w inds /\ len vals = V /\
+  forall c, 0 <= c < ncols ->
+    0 <= f c <= nrows /\ P rows c (f c) < bud c /\
+    (forall k, 0 <= k <= f c -> I2 inds c k = P rows c k) /\
+    (forall j, 0 <= j < P rows c (f c) -> nthZ vals (nthZ offs c + j) = nthZ (CB rows c) j).
+
+Lemma GoodL_ext f g inds vals : (forall c, 0 <= c < ncols -> f c = g c) -> GoodL f inds vals -> GoodL g inds vals.
+Proof.
+  intros E (Hs & Hv & H). split; [exact Hs|]. split; [exact Hv|]. intros c Hc. rewrite <- (E c Hc). apply (H c Hc).
+Qed.
+
+Lemma GoodL_Good f inds vals : GoodL f inds vals -> Good ncols w V offs rows f inds vals.
+Proof.
+  intros (Hs & Hv & H). split; [exact Hs|]. split; [exact Hv|]. intros c Hc. destruct (H c Hc) as (A & _ & B & D). auto.
+Qed.
+
+Lemma GoodL_init inds vals : shape ncols w inds -> len vals = V ->
+  (forall c, 0 <= c < ncols -> I2 inds c 0 = 0) -> GoodL (fun _ => 0) inds vals.
+Proof.
+  intros Hs Hv H0. split; [exact Hs|]. split; [exact Hv|]. intros c Hc.
+  split; [split; [lia|unfold nrows; apply len_nonneg]|]. rewrite P_0. split; [unfold bud; pose proof (Hb1 c Hc); lia|]. split.
+  - intros k Hk. assert (k = 0) by lia. subst. rewrite P_0. apply H0. assumption.
+  - intros j Hj. lia.
+Qed.
+
+Lemma GoodL_weaken f g inds vals : GoodL f inds vals -> (forall c, 0 <= c < ncols -> 0 <= g c <= f c) -> GoodL g inds vals.
+Proof.
+  intros (Hs & Hv & H) Hg. split; [exact Hs|]. split; [exact Hv|]. intros c Hc.
+  destruct (H c Hc) as (Hf & Hbd & Hi & Hb). specialize (Hg c Hc).
+  pose proof (P_mono maxrow rows c (g c) (f c) ltac:(lia)) as Hm.
+  split; [lia|]. split; [lia|]. split.
+  - intros k Hk. apply Hi. lia.
+  - intros j Hj. apply Hb. lia.
+Qed.
+
+(* bytes written beyond the committed part of column c, inside its budget, disturb nothing *)
+Lemma GoodL_write f inds vals c r tp : GoodL f inds vals -> 0 <= c < ncols -> f c = r ->
+  P rows c r + len tp <= bud c -> GoodL f inds (wrs vals (nthZ offs c + P rows c r) tp).
+Proof.
+  intros (Hs & Hv & H) Hc Hf Hfit. pose proof (len_nonneg tp) as Hp.
+  pose proof (offs_nonneg1 c ltac:(lia)) as Hon. pose proof (P_nonneg rows c r) as Hpn.
+  split; [exact Hs|]. split; [rewrite len_wrs; exact Hv|].
+  intros c' Hc'. destruct (H c' Hc') as (Hf' & Hbd' & Hi' & Hb'). split; [exact Hf'|]. split; [exact Hbd'|]. split; [exact Hi'|].
+  intros j Hj. rewrite nth_wrs_out; [apply Hb'; exact Hj| | |].
+  - lia.
+  - pose proof (offs_nonneg1 c' ltac:(lia)). lia.
+  - unfold bud in *. destruct (Z.eq_dec c' c) as [->|Hne].
+    + left. rewrite Hf in Hj. lia.
+    + destruct (Z_lt_ge_dec c' c) as [Hlt|Hge].
+      * left. pose proof (offs_mono1 (c' + 1) c ltac:(lia) ltac:(lia) ltac:(lia)). lia.
+      * right. pose proof (offs_mono1 (c + 1) c' ltac:(lia) ltac:(lia) ltac:(lia)). lia.
+Qed.
+
+Lemma GoodL_cell f inds vals c r : GoodL f inds vals -> 0 <= c < ncols -> f c = r -> 0 <= r < nrows -> r + 1 < w ->
+  P rows c r + len (cell_text rows r c) < bud c ->
+  GoodL (fun x => if x =? c then r + 1 else f x)
+        (put2 inds c (r + 1) (P rows c r + len (cell_text rows r c)))
+        (wrs vals (nthZ offs c + P rows c r) (cell_text rows r c)).
+Proof.
+  intros HG Hc Hf Hr Hw Hfit.
+  pose proof (GoodL_write f inds vals c r (cell_text rows r c) HG Hc Hf ltac:(lia)) as (_ & Hv2 & H2).
+  destruct HG as (Hs & Hv & H). pose proof (offs_nonneg1 c ltac:(lia)) as Hon. pose proof (P_nonneg rows c r) as Hpn.
+  pose proof (offs_mono1 (c + 1) ncols ltac:(lia) ltac:(lia) ltac:(lia)) as Hm.
+  split; [apply shape_put2; assumption|]. split; [exact Hv2|].
+  intros c' Hc'. destruct (H2 c' Hc') as (Hf' & Hbd' & Hi' & Hb').
+  destruct (c' =? c) eqn:E.
+  - apply Z.eqb_eq in E. subst c'. rewrite (P_succ rows c r Hr). split; [lia|]. split; [exact Hfit|]. split.
+    + intros k Hk. destruct (Z.eq_dec k (r + 1)) as [->|Hne].
+      * rewrite (I2_put2_same ncols w) by (try assumption; lia). symmetry. apply P_succ. exact Hr.
+      * rewrite (I2_put2_other ncols w) by (try assumption; lia). apply Hi'. lia.
+    + intros j Hj. destruct (Z_lt_ge_dec j (P rows c r)) as [Hlt|Hge].
+      * apply Hb'. rewrite Hf. lia.
+      * replace (nthZ offs c + j) with (nthZ offs c + P rows c r + (j - P rows c r)) by lia.
+        unfold bud in Hfit. rewrite nth_wrs_in by lia. replace j with (P rows c r + (j - P rows c r)) at 2 by lia.
+        symmetry. apply CB_at; [exact Hr|lia].
+  - apply Z.eqb_neq in E. split; [exact Hf'|]. split; [exact Hbd'|]. split.
+    + intros k Hk. rewrite (I2_put2_other ncols w) by (try assumption; lia). apply Hi'. exact Hk.
+    + exact Hb'.
+Qed.
+
+Lemma GoodL_drop c r inds vals : 0 <= r -> GoodL (fun x => if x <? c then r + 1 else r) inds vals -> GoodL (fun _ => r) inds vals.
+Proof. intros Hr HG. eapply GoodL_weaken; [exact HG|]. intros x Hx. cbv beta. destruct (x <? c); lia. Qed.
+
+End DataG.
+
 End Gen.
